@@ -16,6 +16,13 @@ implementation-side oracle and the correspondence runs of checks/C05.py):
                   relation (garbler pair, evaluator label, plain bit) on the
                   GLOBAL wire store, for every hash pair, offset, id maps and
                   every start value of the stream-wide tweak counter;
+                * `C05_stream_undriven_output_keeps` / `_undefined`: an output
+                  wire of a streamed circuit that no gate drives keeps the
+                  value of the id's previous owner and is not a defined
+                  location (hypothesis `hret` of `C05_stream_session` fails);
+                  `C05_stream_output_slot_stale_witness`: the circuit the code
+                  builds for a 4-bit Hamming distance is one (known findings
+                  C05-stream-builder-result-slots-*);
   compile side  * `C05_gc_safe`: `Program.GC` (as of fix 0c2f851: `Concat` in
                   the alias operand list, liveness closed over direct AND
                   indirect aliases) never frees an id range that a later-read
@@ -251,6 +258,80 @@ example : wfAll exProg (fun l => l = (false, 3) ∨ l = (false, 70000)) := by
 
 example : ∀ w ∈ [5, 70001], definedAll exProg (fun l => l = (false, 3) ∨ l = (false, 70000)) (false, w) := by
   simp [exProg, definedAll, sDefinedAfter, SCtx.locate, SCtx.firstTmp, SCtx.firstOut]
+
+/-! ### A circuit output that no gate drives
+
+`C05_stream_session` needs `hret`: every return wire is DEFINED by the streamed
+circuits.  Whether the instruction circuits that `Program.Stream` builds drive
+all their outputs is not modelled (the builders of compiler/circuits are
+validated by the oracle); the two lemmas say what the wire side does when one
+does not, and the witness is the circuit the code builds for
+`builtin uint4 uint4 uint4` (`native("hamming", a, b)`): `circuits.NewAdder`
+REPLACES the leftover slot 3 of the result slice with the constant-zero wire
+instead of driving the wire in it, `Program.Stream` uses that slice as the
+circuit's output wires (it flags them before the builder runs), the zero wire
+is pruned and gets a fresh id as an "output": 15 gates, 24 wires, no gate
+writes wire 23.  With two or more replaced slots (operands of 6 bits or more)
+`circuits.Compiler.Compile` panics "Output already assigned" instead.
+Known findings C05-stream-builder-result-slots-{panic,stale}; both are
+replayed on the real streaming pair by the harness (class lib and its corpus);
+repair candidate hooks/c05-stream-builder-result-slots.patch. -/
+
+/-- A streamed circuit leaves every location that none of its gates writes as
+it was: the value (at the parties: the labels) of whatever had the id before. -/
+theorem C05_stream_undriven_output_keeps (cx : SCtx) (gates : List Gate) (l : Loc)
+    (h : ∀ g ∈ gates, cx.locate g.out ≠ l) (ps : SStore Bool) :
+    (streamPlain cx gates ps).get l = ps.get l := by
+  induction gates generalizing ps with
+  | nil => rfl
+  | cons g gs ih =>
+    rw [streamPlain_cons, ih (fun g' hg' => h g' (List.mem_cons_of_mem _ hg'))]
+    unfold streamPlainGate
+    rw [SStore.get_set]
+    simp [h g List.mem_cons_self]
+
+/-- ... and such a location is not among those the circuit defines: `hret` of
+`C05_stream_session` cannot be established for it. -/
+theorem C05_stream_undriven_output_undefined (cx : SCtx) (gates : List Gate) (l : Loc)
+    (h : ∀ g ∈ gates, cx.locate g.out ≠ l) (D : Loc → Prop) (hD : ¬ D l) :
+    ¬ sDefinedAfter cx gates D l := by
+  induction gates generalizing D with
+  | nil => exact hD
+  | cons g gs ih =>
+    apply ih (fun g' hg' => h g' (List.mem_cons_of_mem _ hg'))
+    intro hc
+    rcases hc with hc | hc
+    · exact h g List.mem_cons_self hc.symm
+    · exact hD hc
+
+/-- The instruction circuit `Program.Stream` compiles for a 4-bit Hamming
+distance on the tree without the repair (circuit-local wire numbers: inputs
+0..7, outputs 20..23). -/
+def hamming4Streamed : List Gate :=
+  [⟨.xor, 0, 4, 8⟩, ⟨.xor, 1, 5, 9⟩, ⟨.xor, 2, 6, 10⟩, ⟨.xor, 3, 7, 11⟩, ⟨.xor, 8, 9, 12⟩, ⟨.and, 8, 9, 13⟩,
+   ⟨.xor, 10, 11, 14⟩, ⟨.and, 10, 11, 15⟩, ⟨.xor, 12, 14, 20⟩, ⟨.and, 12, 14, 16⟩, ⟨.xor, 15, 16, 17⟩,
+   ⟨.xor, 13, 16, 18⟩, ⟨.xor, 13, 17, 21⟩, ⟨.and, 17, 18, 19⟩, ⟨.xor, 16, 19, 22⟩]
+
+/-- `a` on ids 20..23, `b` on ids 30..33, the result on the recycled ids 10..13. -/
+def hamming4Ctx : SCtx := { ins := [20, 21, 22, 23, 30, 31, 32, 33], outs := [10, 11, 12, 13], numWires := 24 }
+
+/-- a = 8, b = 0; id 13 still holds bit 3 (= 1) of a dead 4-bit value. -/
+def hamming4Stale : SStore Bool := (SStore.empty.setGlob 23 true).setGlob 13 true
+def hamming4Fresh : SStore Bool := SStore.empty.setGlob 23 true
+
+/-- Negation witness for "streaming = whole circuit" at the instruction-circuit
+stage: no gate drives result bit 3, so the streamed Hamming distance of 8 and 0
+is 9 when id 13 was used before (whole circuit: 1) and 1 only when it was not. -/
+theorem C05_stream_output_slot_stale_witness :
+    (∀ g ∈ hamming4Streamed, hamming4Ctx.locate g.out ≠ (false, 13)) ∧
+    [10, 11, 12, 13].map (streamPlain hamming4Ctx hamming4Streamed hamming4Stale).getGlob =
+      [true, false, false, true] ∧
+    [10, 11, 12, 13].map (streamPlain hamming4Ctx hamming4Streamed hamming4Fresh).getGlob =
+      [true, false, false, false] := by
+  refine ⟨by decide, by decide, by decide⟩
+
+example : ¬ sDefinedAfter hamming4Ctx hamming4Streamed (fun l => l.1 = false ∧ l.2 ∈ hamming4Ctx.ins) (false, 13) :=
+  C05_stream_undriven_output_undefined _ _ _ C05_stream_output_slot_stale_witness.1 _ (by decide)
 
 /-! ## Compile side -/
 
